@@ -14,9 +14,11 @@ _j = z3.Int("j!q")
 _k = z3.Int("k!q")
 
 
-def forall_range(lo, hi, body, var=None):
-    """forall j. lo <= j < hi -> body(j)"""
+def forall_range(lo, hi, body, var=None, pattern=None):
+    """forall j. lo <= j < hi -> body(j); `pattern(j)` optionally fixes the instantiation trigger."""
     j = var if var is not None else z3.Int("j!q")
+    if pattern is not None:
+        return z3.ForAll([j], z3.Implies(z3.And(lo <= j, j < hi), body(j)), patterns=[pattern(j)])
     return z3.ForAll([j], z3.Implies(z3.And(lo <= j, j < hi), body(j)))
 
 
